@@ -37,7 +37,7 @@ fn make_plan<T: Flt>(rng: &mut Rng, x: &[T], out_of_range: bool) -> Plan<T> {
         singles.push(hi.up());
     }
     let mut arrays = Vec::new();
-    for (kind, shape) in [
+    let mut shapes = vec![
         (QKind::S0, vec![]),
         (QKind::S1, vec![5]),
         (QKind::S2, vec![2, 3]),
@@ -45,7 +45,13 @@ fn make_plan<T: Flt>(rng: &mut Rng, x: &[T], out_of_range: bool) -> Plan<T> {
         (QKind::Dyn, vec![4]),
         (QKind::Dyn, vec![3, 2]),
         (QKind::S1, vec![0]),
-    ] {
+    ];
+    if rng.chance(0.15) {
+        // big query arrays (hundreds to thousands of elements)
+        shapes.push((QKind::S1, vec![*rng.pick(&[257usize, 1025, 4099])]));
+        shapes.push((QKind::S2, vec![33, 40]));
+    }
+    for (kind, shape) in shapes {
         let n: usize = shape.iter().product();
         let mut vals: Vec<T> = (0..n).map(|_| rand_in(rng, lo, hi)).collect();
         if out_of_range && n > 2 && rng.chance(0.2) {
@@ -193,9 +199,12 @@ fn case1<T: Elem>(case: u64, args: &Args, ev: &mut Ev) {
     let spline = case % 4 == 1;
     let oor = rng.chance(0.3);
     let (mut spec, _) = if spline {
-        gen_spline_case::<T>(&mut rng, &SplineOpts { max_n: 9, max_lane_rank: 3, ..Default::default() })
+        let force_n = if case % 24 == 5 { Some(*rng.pick(&[64usize, 65, 257, 300])) } else { None };
+        gen_spline_case::<T>(&mut rng, &SplineOpts { max_n: 9, max_lane_rank: 3, force_n, ..Default::default() })
     } else {
-        gen_linear_case::<T>(&mut rng, &LinearOpts { max_n: 9, max_lane_rank: 3, allow_cluster: false, ..Default::default() })
+        // max_n >= 40 enables the occasional long axis (up to 1025 points)
+        let max_n = if case % 8 == 2 { 40 } else { 9 };
+        gen_linear_case::<T>(&mut rng, &LinearOpts { max_n, max_lane_rank: 3, allow_cluster: false, ..Default::default() })
     };
     // baseline: everything owned and in C order
     spec.data_lay = Layout::c(spec.data.ndim());
